@@ -3,6 +3,8 @@ package exec
 import (
 	"go/token"
 	"go/types"
+
+	"golang.org/x/tools/go/ssa"
 )
 
 // Single-goroutine models of sync.Map and sync/atomic (the executor runs one goroutine).
@@ -74,6 +76,53 @@ func init() {
 			}
 		}
 		return nil
+	}
+	// sync.Pool: a LIFO free list kept in the struct's own `local` field (single goroutine)
+	poolSlot := func(fr *frame, recv value) *value {
+		cell := recv.(*value)
+		st := (*cell).(structure)
+		pt := fr.i.prog.ImportedPackage("sync").Type("Pool").Type().Underlying().(*types.Struct)
+		for i := 0; i < pt.NumFields(); i++ {
+			if pt.Field(i).Name() == "local" {
+				return &st[i]
+			}
+		}
+		panic(unsupported("sync.Pool: unexpected layout"))
+	}
+	externals["(*sync.Pool).Put"] = func(fr *frame, args []value) value {
+		if it, ok := args[1].(iface); ok && it.t == nil {
+			return nil
+		}
+		slot := poolSlot(fr, args[0])
+		stack, _ := (*slot).([]value)
+		*slot = append(append([]value{}, stack...), args[1])
+		return nil
+	}
+	externals["(*sync.Pool).Get"] = func(fr *frame, args []value) value {
+		slot := poolSlot(fr, args[0])
+		if stack, _ := (*slot).([]value); len(stack) > 0 {
+			v := stack[len(stack)-1]
+			*slot = append([]value{}, stack[:len(stack)-1]...)
+			return v
+		}
+		// New func() any
+		cell := args[0].(*value)
+		st := (*cell).(structure)
+		pt := fr.i.prog.ImportedPackage("sync").Type("Pool").Type().Underlying().(*types.Struct)
+		for i := 0; i < pt.NumFields(); i++ {
+			if pt.Field(i).Name() == "New" {
+				if fn := st[i]; fn != nil {
+					if f, ok := fn.(*ssa.Function); ok && f == nil {
+						return iface{}
+					}
+					if c, ok := fn.(*closure); ok && c == nil {
+						return iface{}
+					}
+					return call(fr.i, fr, token.NoPos, fn, nil)
+				}
+			}
+		}
+		return iface{}
 	}
 	// sync/atomic on plain cells
 	load := func(fr *frame, args []value) value { return *args[0].(*value) }
